@@ -97,6 +97,20 @@ def main():
             ts = [lang.T("id", "out", "out"), lang.T("="), lang.T("(")] + atom_x + [lang.T(")"), lang.T(kw_[0], "", kw_[1])] + iv + \
                  [lang.T("("), lang.T("id", "y", "y"), lang.T("cmp", "ge", ">="), lang.T("num", 1, "1"), lang.T(")")]
         cases.append(mk_case(ts, rng))
+    # (6) annotations and imports: a topic annotation on a variable, on a constant declared in the text, on an undeclared name;
+    # a variable whose type is imported from a module - an existing class, a name the module does not have, an object that is
+    # not a class (the imported object is instantiated by parse())
+    T_ = lang.T
+    asrt = [T_("id", "out", "out"), T_("="), T_("id", "x", "x"), T_("cmp", "ge", ">="), T_("num", 1, "1")]
+    topic = lambda nm: [T_("@", "", "@"), T_("topic", "", "topic"), T_("("), T_("id", nm, nm), T_(","), T_("id", "tp", "tp"), T_(")")]
+    constd = [T_("const", "", "const"), T_("type", "", "int"), T_("id", "c", "c"), T_("="), T_("num", 1, "1")]
+    vard = lambda ty, nm: [T_("id", ty, ty) if ty not in ("float", "int") else T_("type", "", ty), T_("id", nm, nm)]
+    imp = lambda mod, nm: [T_("from", "", "from"), T_("id", mod, mod), T_("import", "", "import"), T_("id", nm, nm)]
+    for ts in ([vard("float", "z") + topic("z") + asrt, constd + topic("c") + asrt, topic("nope") + asrt, topic("x") + asrt,
+                imp("vmsgs", "Msg") + vard("Msg", "m") + asrt, imp("vmsgs", "Nope") + vard("Nope", "m") + asrt,
+                imp("math", "pi") + vard("pi", "m") + asrt, imp("os", "Foo") + vard("Foo", "m") + asrt, imp("nosuchmodule", "Msg") + vard("Msg", "m") + asrt,
+                imp("time", "sleep") + vard("sleep", "m") + asrt, vard("Msg", "m") + asrt]):
+        cases.append(mk_case([t for grp in [ts] for t in grp], rng))
     # empty and blank texts
     for txt in ("", " ", ";", "\n"):
         c = mk_case([lang.T(";")] if txt.strip() == ";" else [], rng)
